@@ -798,6 +798,9 @@ class Analyzer:
             else:
                 a = self.default_value(st, ty, f"V{i}", hint=f"a{i}")
                 S.entry_syms |= self.val_atoms(a)
+                fix = getattr(self, "fix_enum_args", {}).get((key, i))
+                if fix is not None and isinstance(a, Enum):
+                    st.C.add(eq(a.discr, fix))       # hypothesis run: this enum argument is the given variant
             args.append(a)
         S.args = args
         S.entry_cons = sorted(st.C.cons, key=lambda c: c.key())
@@ -2168,6 +2171,31 @@ def m_all_any(an, st, args, dty, site, callee, t):
         return out
     return ret1(st, Bool("unk"))
 
+def m_checked_arith(an, st, args, dty, site, callee, t):
+    """uN::checked_add / checked_sub: Some(exact result) when it fits the type, None otherwise"""
+    path = callee.get("resolved") or callee.get("path") or ""
+    op = path.rsplit("::", 1)[-1]
+    a, b = (args + [None, None])[:2]
+    if not (isinstance(a, Int) and isinstance(b, Int)) or op not in ("checked_add", "checked_sub"):
+        return m_opaque(an, st, args, dty, site, callee, t)
+    ity = None
+    try:
+        ity = t["args"][0].get("ty") or t["args"][0].get("place", {}).get("ty")
+    except Exception:
+        pass
+    lo, hi = int_range(ity) if isinstance(ity, dict) and ity.get("k") == "int" else (0, (1 << 64) - 1)
+    r = a.e + b.e if op == "checked_add" else a.e - b.e
+    adt = dty.get("adt", "std::option::Option")
+    out = []
+    s1 = st.copy(); s1.C.add(ge(r, lo)); s1.C.add(le(r, hi))
+    if not s1.C.infeasible(): out.append((s1, Enum(adt, 1, {(1, 0): Int(r)})))
+    if op == "checked_add":
+        s0 = st.copy(); s0.C.add(ge(r, hi + 1))
+    else:
+        s0 = st.copy(); s0.C.add(le(r, lo - 1))
+    if not s0.C.infeasible(): out.append((s0, Enum(adt, 0, {})))
+    return out
+
 MODELS = {
     "std::vec::Vec::<T, A>::len": m_len,
     "std::vec::Vec::<T, A>::is_empty": m_is_empty,
@@ -2276,6 +2304,8 @@ PREFIX_MODELS = [
     ("<constants::Type as std::convert::Into", m_into_enum_const),
     ("<T as std::convert::Into<U>>::into", m_into_enum_const),
     ("chomp::", m_opaque),
+    ("core::num::<impl u8>::checked_", m_checked_arith), ("core::num::<impl u16>::checked_", m_checked_arith), ("core::num::<impl u32>::checked_", m_checked_arith),
+    ("core::num::<impl u64>::checked_", m_checked_arith), ("core::num::<impl usize>::checked_", m_checked_arith),
     ("core::num::", m_opaque),
     ("core::char::", m_opaque),
     ("std::net::", m_opaque),
